@@ -24,7 +24,8 @@ type C18Case struct {
 
 func GenC18(t *rapid.T) *C18Case {
 	c := &C18Case{Class: []string{"exact", "general", "fullrange", "intfamily"}[pick(t, "class", 30, 30, 15, 25)], Route: drawInt(t, 0, 7, "route")}
-	n := []int{0, 1, 1, 2, 2, 3, 4, 5, 6, 8, 10, 15, 20}[drawIdx(t, 13, "n")]
+	n := []int{0, 1, 1, 2, 2, 3, 4, 5, 6, 8, 10, 15, 20, 64, 65, 100}[drawIdx(t, 16, "n")]
+	long := n > 20 // long lists: small magnitudes so that no product leaves the float64 range
 	sign := drawInt(t, 0, 3, "sign") // 0 mixed, 1 all negative, 2 all positive, 3 mixed
 	apply := func(x float64) float64 {
 		switch sign {
@@ -53,10 +54,15 @@ func GenC18(t *rapid.T) *C18Case {
 		case "general":
 			if isInt {
 				var v int
-				if oneIn(t, 4, "big") {
+				if oneIn(t, 4, "big") && !long {
 					v, _ = GenInt(t)
 					if v > 1<<40 || v < -(1<<40) {
 						v >>= 24 // keep products of up to 20 factors far away from overflow
+					}
+				} else if long {
+					v = drawInt(t, -9, 9, "i")
+					if v == 0 && drawBool(t, "nozero") {
+						v = 3
 					}
 				} else {
 					v = drawInt(t, -100000, 100000, "i")
@@ -68,6 +74,9 @@ func GenC18(t *rapid.T) *C18Case {
 			} else {
 				m := rapid.Float64Range(1, 2).Draw(t, "mant")
 				e := drawInt(t, -20, 20, "exp")
+				if long {
+					e = drawInt(t, -3, 3, "exp")
+				}
 				x := math.Ldexp(m, e)
 				if drawBool(t, "neg") {
 					x = -x
